@@ -119,15 +119,18 @@ class Sym:
 
     symbolic = True
 
-    def __init__(self, space: StateSpace) -> None:
+    def __init__(self, space: StateSpace, fixed: Optional[Dict[str, Any]] = None) -> None:
         self.space = space
         self.vars: Dict[str, Any] = {}
         self.bounds: Dict[str, Tuple[int, int]] = {}
         self.choices: Dict[str, int] = {}
+        self.fixed: Dict[str, Any] = dict(fixed or {})
 
     # -- ints --------------------------------------------------------------
     def int(self, name: str, lo: int, hi: int) -> Any:
         """A symbolic int in [lo, hi] (bounds are solver constraints: no fork)."""
+        if name in self.fixed:
+            return self.fixed[name]
         if name in self.vars:
             return self.vars[name]
         with NoTracing():
@@ -139,6 +142,8 @@ class Sym:
 
     def choice(self, name: str, n: int) -> int:
         """A finite selector 0..n-1, case-split by the solver, returned concrete."""
+        if name in self.fixed:
+            return int(self.fixed[name])
         if name in self.choices:
             return self.choices[name]
         if n <= 1:
@@ -183,6 +188,8 @@ class Sym:
             out[k] = realize(v)
         for k, v in self.choices.items():
             out[k] = v
+        for k, v in self.fixed.items():
+            out[k] = v
         return out
 
 
@@ -193,6 +200,7 @@ class Conc(Sym):
 
     def __init__(self, witness: Dict[str, Any]) -> None:  # noqa: super not called on purpose
         self.w = dict(witness)
+        self.fixed = {}
         self.vars = {}
         self.bounds = {}
         self.choices = {}
@@ -282,6 +290,8 @@ def explore(
     seed: int = 0,
     n_samples: int = 3,
     stop_on_refute: bool = True,
+    fixed: Optional[Dict[str, Any]] = None,
+    on_refute: Optional[Callable[[PathRecord], None]] = None,
 ) -> JobResult:
     """Explore all paths of ``fn``; see module docstring."""
     _install_z3_accounting()
@@ -312,7 +322,7 @@ def explore(
         rec: Optional[PathRecord] = None
         cf_guard.reset()
         with Patched(), COMPOSITE_TRACER, NoTracing(), StateSpaceContext(space):
-            sym = Sym(space)
+            sym = Sym(space, fixed)
             try:
                 label = None
                 info: Dict[str, Any] = {}
@@ -377,8 +387,11 @@ def explore(
                     res.counterexample = rec
                     break
             if status == VerificationStatus.REFUTED:
-                res.counterexample = rec
+                if res.counterexample is None:
+                    res.counterexample = rec
                 refuted = True
+                if on_refute is not None:
+                    on_refute(rec)
                 if stop_on_refute:
                     break
             else:
